@@ -164,6 +164,34 @@ CLAIMS["C14"] = (
     "_run's synchronous sections; statement-granular CFG.",
     "DESIGN.md §2 C14")
 
+CLAIMS["C07"] = (
+    "linear forms modulo the period per return path (alignment), CFG exactly-once path rules "
+    "(advance), provenance rules (shared timestamp)",
+    "Decides on the parsed source: for each return path of _calculate_window_end, with the path "
+    "facts on `elapsed = (now - align_to) % period`, window_end - align_to is a whole number of "
+    "periods, window_end lies in (now, now + 2 periods] and the hand-aligned first timer tick "
+    "coincides with it; _window_end has exactly two writers and the per-tick advance is exactly "
+    "one period, exactly once, after the gather and before any raise/break, with a timer that "
+    "triggers all missed ticks; every series of a tick is resampled with self._window_end and "
+    "emits it unchanged. Timer lateness and wall-clock behaviour are not decided.",
+    "Trusted: x % p in [0, p); exact datetime arithmetic; frequenz.channels.Timer semantics of "
+    "TriggerAllMissed.",
+    "DESIGN.md §2 C07")
+CLAIMS["C08"] = (
+    "resolved-callee + term-shape rules on the relevance window; who-may-call / guard-dominance on "
+    "the sample filter; who-may-write on the buffer",
+    "Decides on the parsed source: both window edges use the function `bisect` resolves to "
+    "(bisect_right) keyed by the sample timestamp (left edge exclusive at T - age, right edge "
+    "inclusive at T) and the slice is taken in buffer order; the age term is T - max(period, input "
+    "period or period) * max_data_age; samples reach the buffer only from the receive loop under "
+    "`value is not None and not isnan` and add_sample stores every sample; the function is called "
+    "iff the relevant set is non-empty; the buffer is a bounded right-appended deque; the input "
+    "period is only estimated after excluding now <= sampling_start. The numeric buffer length is "
+    "not decided.",
+    "Trusted: bisect.bisect == bisect_right (stdlib); time-ordered input (the property's "
+    "quantifier).",
+    "DESIGN.md §2 C08")
+
 PENDING_REASON = ("no static check is registered for this property yet in this revision of the "
                   "machinery (planned rules are in DESIGN.md §2); nothing is claimed for it")
 
